@@ -9,7 +9,7 @@ Definition vstatus (s : status) : value :=
   VStr (match s with Ok => "Ok" | EVal => "EVal" | EAttr => "EAttr" | EType => "EType" | EIndex => "EIndex" | Unmod => "Unmod" end).
 
 (* every attribute, hidden or not: used to compare model states for equality *)
-Definition vknots (k : option (list num)) : value := match k with None => VNone | Some l => vnums l end.
+Definition vknots (k : option (bool * list num)) : value := match k with None => VNone | Some (g, l) => VList [VBool g; vnums l] end.
 Definition full_simple (x : simple) : value :=
   match x with
   | SL l => VList [VStr "L"; VInt (l_feat l); vnums (l_lam l); vostrs (l_pen l); VBool (l_verbose l); VStr (l_dtype l); vostrs (l_con l)]
@@ -84,7 +84,7 @@ Inductive c14case :=
 | CGam (g : gam) (ops : list gop) (trace : list value)
 | CInfo (t : term) (i : value) (rebuilt : value) (guard : bool)
     (* i = t.info; rebuilt = Term.build_from_info(t.info).info (VNone if it raised); guard = harness's classification
-       "no custom knots, no tensor by, hidden attributes at their defaults" *)
+       "no user-given knots, hidden factor attributes at their defaults" *)
 | CAccept (o : obj) (deep force : bool) (k : string) (accepted : bool) (public_keys : list string)
 | CPenalty (ts : list term) (tol : QArith_base.Q) (impl : list (list (Z * Z))).
     (* TermList.build_penalties() of a term list in the state ts (after uses and assignments), exact dyadics *)
